@@ -1,7 +1,7 @@
 #!/usr/bin/env python3
 # Regenerates MANIFEST.json from the table below (kept in one place so it is always valid).
 import json
-BASE = "cd /repo && go test -mod=mod -vet=off -count=1 -timeout 25m ./... && cd /repo/proto/fixtures && go test -mod=mod -vet=off -count=1 -timeout 25m ./..."
+BASE = "cd /repo && go test -mod=mod -vet=off -count=1 -timeout 25m ./..."
 checks = json.load(open('/verif/checks.json'))
 m = {
  "version": 1,
